@@ -514,6 +514,27 @@ class BuiltinMixin:
             return [Ev(st, args[0].dir(self, st))]
         return [Ev(st, OpaqueV(z3.Function("py_dir", Py, Py)(self.inject(args[0], st)), tag="dir"))]
 
+    def _impure(self, what, st):
+        """Calls that make a result depend on the process (hash randomisation, object identity, RNG):
+        a failed purity obligation, never silently accepted."""
+        self.oblige("%spurity/no-call-to-%s%s" % (self.oid_prefix, what, self.case_suffix), st, z3.BoolVal(False), kind="purity")
+        return [Ev(st, IntV(z3.Int(fresh_name(what))))]
+
+    def bi_hash(self, st, args, kwargs, fx):
+        return self._impure("hash", st)
+
+    def bi_id(self, st, args, kwargs, fx):
+        return self._impure("id", st)
+
+    def bi_random_random(self, st, args, kwargs, fx):
+        return self._impure("random", st)
+
+    def bi_random_randint(self, st, args, kwargs, fx):
+        return self._impure("random", st)
+
+    def bi_random_choice(self, st, args, kwargs, fx):
+        return self._impure("random", st)
+
     def bi_functools_partial(self, st, args, kwargs, fx):
         return [Ev(st, FuncV("partial", inner=args[0], args=tuple(args[1:]), kwargs=dict(kwargs)))]
 
